@@ -162,7 +162,7 @@ func init() {
 			"random long arrays (<=40) over tiny alphabets, arrays of 100-600 elements with a few localised edits, arrays mixing scalars with aligned same-kind containers that differ inside, and random nested documents (context only); " +
 			"oracle: textbook LCS DP for the edit counts, stepwise reference interpretation for the context lines; non-trivial = non-empty diff; distinct = distinct (a, b)",
 		Floors: map[string]int{"index_hunks": 20000, "before_is_element": 5000, "before_is_boundary": 5000, "after_is_element": 5000, "after_is_boundary": 5000,
-			"long_array": 2000, "very_long_array": 1000, "b_is_patch_result": 5000, "mixed_recursed": 500, "hunk_nested_arrays": 2000},
+			"long_array": 2000, "very_long_array": 1000, "b_is_patch_result": 5000, "array_over_1024": 30, "mixed_recursed": 500, "hunk_nested_arrays": 2000},
 		Assumptions: []string{
 			"minimality is a count against the optimum (len - LCS on each side), not identity of the script: several optimal scripts exist",
 			"for arrays holding containers only the upper bound is demanded (recursing removes fewer elements than an LCS over whole values)",
@@ -217,6 +217,10 @@ func init() {
 			}
 			prof := gen.PTiny.With(func(p *gen.Profile) { p.Scalars = alpha })
 			n := c.R.Range(100, 600)
+			if i%25 == 0 {
+				n = c.R.Range(1030, 1300) // beyond any plausible "small table" shortcut
+				c.Feature("array_over_1024")
+			}
 			a := gen.Array(c.R, prof, n, 0)
 			b := append([]any{}, a...)
 			for e := c.R.Range(2, 5); e > 0; e-- {
